@@ -108,7 +108,7 @@ def main():
         })
     m = {
         'version': 1,
-        'setup_cmd': '/venv/bin/python translate/gen_all.py && cd lean && lake build SarpyModel SarpyModel.Drivers',
+        'setup_cmd': './tools/setup.sh',
         'hooks': {'guard': 'SARPY_VERIF',
                   'enable': 'no source hooks: the harness observes sarpy from outside (wrappers and proxies at run time)',
                   'baseline_off_cmd': 'cd /repo && /venv/bin/python -m pytest -ra -q -p no:cacheprovider --timeout=900 --continue-on-collection-errors',
